@@ -14,13 +14,16 @@ def build(cfg):
         dc = cfg[name]
         cd = ClockDomain(name, clk_edge=dc["edge"], reset_less=dc["rst"] == "none", async_reset=dc["rst"] == "async")
         cds[name] = cd
-        setattr(top.domains, name, cd)
     d = Signal(name="d")
     c = {"c1": Signal(name="c1"), "c2": Signal(name="c2")}
     r1 = Signal(name="r1", init=1)
     r2 = Signal(name="r2", init=1, reset_less=True)
     r3 = Signal(name="r3", init=1)
     s = Module()
+    for name in ("A", "B"):         # declared at the top level; with decl = "inner" the wrapped submodule declares the
+        setattr(top.domains, name, cds[name])      # same ClockDomain objects once more itself (domains do not propagate
+        if cfg.get("decl") == "inner":             # upwards, so the top level needs its declaration in any case)
+            setattr(s.domains, name, cds[name])
     s.d[cfg["d1"]] += r1.eq(d)
     s.d[cfg["d2"]] += r2.eq(d)
     r4 = Signal(2, name="r4", init=3)          # one signal, bits split between the two domains
